@@ -335,6 +335,11 @@ def execute(run, prop, shard):
                 corp.append((("types", j), gen.gen_types(pipeline.case_seed(run.seed + 9, run.tier, 0, j))))
             except Exception:
                 run.counters["generator_failures"] += 1
+        for j in range(60 if run.tier == "quick" else 500):
+            try:
+                corp.append((("collide", j), gen.gen_collide(pipeline.case_seed(run.seed + 13, run.tier, 0, j))))
+            except Exception:
+                run.counters["generator_failures"] += 1
         for tag, prog in corp:
             run.case(prog, shape=("corpus",) + tuple(map(str, tag)))
             run.counters[f"corpus_programs:{tag[0]}"] += 1
